@@ -1,4 +1,5 @@
 """C01 - signing relays to the device exactly what the client asked to have signed."""
+import copy
 import struct
 
 from hypothesis import strategies as st
@@ -22,7 +23,8 @@ ASSUMPTIONS = [
 ]
 REQUIRED_LABELS = {
     "quick": ["auth:legacy", "auth:segwit", "unauth", "v1", "dev:early", "dev:late", "dev:op",
-              "sig:bad", "multi-chunk-btc", "policy:all-1", "success", "history", "bip144"],
+              "sig:bad", "multi-chunk-btc", "policy:all-1", "success", "history", "bip144",
+              "related-to-previous"],
     "thorough": ["auth:legacy", "auth:segwit", "unauth", "v1", "dev:early", "dev:late",
                  "dev:op", "sig:bad", "multi-chunk-btc", "policy:all-1", "success", "history",
                  "bip144",
@@ -71,6 +73,28 @@ def cases(draw, tier):
     seq = [first]
     for _ in range(n - 1):
         nxt = draw(one_sign(tier))
+        prev = seq[-1]
+        if "tx" in prev and draw(st.booleans()):
+            # the next input of the same transaction / the same request with one thing changed
+            fresh = nxt
+            nxt = copy.deepcopy(prev)
+            nxt["policy"], nxt["sig"], nxt["dev"] = fresh["policy"], fresh["sig"], None
+            what = draw(st.sampled_from(["input", "ws", "ov", "mode", "receipt", "proof",
+                                         "path", "nothing"]))
+            if what == "input":
+                nxt["input"] = draw(st.integers(0, len(nxt["tx"][1])))
+            elif what in ("ws", "ov", "mode"):
+                nxt["mode"] = "legacy" if what == "mode" and prev["mode"] == "segwit" else "segwit"
+                nxt["ws"] = draw(st.binary(min_size=1, max_size=300))
+                nxt["ov"] = draw(st.integers(1, 2 ** 64 - 1)) if what != "ws" else \
+                    prev.get("ov", 1)
+            elif what == "receipt":
+                nxt["receipt"] = fresh.get("receipt", nxt["receipt"])
+            elif what == "proof":
+                nxt["proof"] = fresh.get("proof", nxt["proof"])
+            elif what == "path":
+                nxt["path"] = [x for x in refs.AUTH_PATHS if x != prev["path"]][0]
+            nxt["related"] = what
         nxt["v1"] = first["v1"] and "tx" not in nxt
         if nxt["v1"] and nxt["path"] not in refs.UNAUTH_PATHS:
             nxt["v1"] = False
@@ -124,7 +148,9 @@ def one_sign(draw, tier):
         if authorized and d <= 1:
             part = draw(st.sampled_from(["btc", "receipt", "merkle"]))
             if d == 0:
-                c["dev"] = {"kind": "early", "part": part, "n": draw(st.integers(0, 60))}
+                # stops after n bytes, or (negative) when at most -n bytes are still to come
+                c["dev"] = {"kind": "early", "part": part,
+                            "n": draw(st.one_of(st.integers(0, 60), st.integers(-8, -1)))}
             else:
                 c["dev"] = {"kind": "late", "part": part, "n": draw(st.integers(1, 3))}
         else:
@@ -242,6 +268,8 @@ def run_one(c, w, p):
     code = rep["errorcode"]
     exp = expected_parts(c)
     labels = ["v1" if c["v1"] else "v5"]
+    if c.get("related"):
+        labels.append("related-to-previous")
     authorized = "tx" in c
     labels.append("auth:" + c["mode"] if authorized else "unauth")
     if authorized and len(c["tx"]) > 4:
